@@ -558,7 +558,7 @@ Proof.
   intros cf d v n id d' rs Hid Hs. split; intros Hv H; cbn [step] in H.
   - unfold h_rc_create in H. rewrite (ltb_false_of_le v 2 Hv), Hs in H.
     unfold rc_create in H. rewrite Hid in H. injection H as <- <-. split; reflexivity.
-  - unfold h_rc_put in H. rewrite (ltb_false_of_le v 7 Hv), Hs, Hid in H.
+  - unfold h_rc_put in H. rewrite (ltb_false_of_le v 2 ltac:(lia)), (ltb_false_of_le v 7 Hv), Hs, Hid in H.
     injection H as <- <-. split; reflexivity.
 Qed.
 
@@ -584,7 +584,7 @@ Qed.
 
 Lemma h_rc_put_step d v n d' rs : h_rc_put d v n = (d', rs) -> rc_step d d' /\ traits d' = traits d.
 Proof.
-  unfold h_rc_put. intro H. destruct (v <? 7); [injection H as <- _; split; [left|]; reflexivity|].
+  unfold h_rc_put. intro H. destruct (v <? 2); [injection H as <- _; split; [left|]; reflexivity|]. destruct (v <? 7); [injection H as <- _; split; [left|]; reflexivity|].
   destruct (is_std_rc_name n) eqn:S; [injection H as <- _; split; [left|]; reflexivity|].
   destruct (rc_id_of_name d n) eqn:I; [injection H as <- _; split; [left|]; reflexivity|].
   destruct (rc_create d n) as [dx|e] eqn:E; injection H as <- _; [|split; [left|]; reflexivity].
